@@ -17,15 +17,23 @@
 #ifndef C04_POST_H
 #define C04_POST_H
 
-/* internal chain validation succeeded */
-#define C04_INTERNAL_OK (C04_V_CALLS == 1 && C04_VRC == PS_SUCCESS && (C04_ALL_PASS) && (C04_HAVE_CA))
+/* internal chain validation succeeded = the validator returned PS_SUCCESS, every
+   certificate of the chain carries the verdict PASS, and there were trust anchors at all */
+#define C04_VALIDATOR_OK (C04_V_CALLS == 1 && C04_VRC == PS_SUCCESS)
+#define C04_INTERNAL_OK  (C04_VALIDATOR_OK && (C04_ALL_PASS) && (C04_HAVE_CA))
 
-/* no callback: every validation failure is fatal */
-#define C04_NO_CALLBACK_IS_STRICT   IMPLIES((C04_ACCEPT) && (C04_CB_NULL), C04_INTERNAL_OK && C04_CB_CALLS == 0)
+/* no callback: every validation failure is fatal (one facet per way of failing) */
+#define C04_NOCB_NEEDS_VALIDATOR_SUCCESS  IMPLIES((C04_ACCEPT) && (C04_CB_NULL), C04_VALIDATOR_OK)
+#define C04_NOCB_NEEDS_EVERY_VERDICT_PASS IMPLIES((C04_ACCEPT) && (C04_CB_NULL), (C04_ALL_PASS))
+#define C04_NOCB_NEEDS_TRUST_ANCHORS      IMPLIES((C04_ACCEPT) && (C04_CB_NULL), (C04_HAVE_CA))
+#define C04_NOCB_CALLS_NOTHING            IMPLIES((C04_CB_NULL), C04_CB_CALLS == 0)
 /* with a callback: it is consulted exactly once, about this chain, and must say "go on" */
 #define C04_CALLBACK_DECIDES        IMPLIES((C04_ACCEPT) && !(C04_CB_NULL), C04_CB_CALLS == 1 && (C04_CB_GOT_CHAIN) && (C04_CB_RET == 0 || C04_CB_RET == SSL_ALLOW_ANON_CONNECTION))
 /* an internal failure is overridden only by a callback that was shown a (non-zero) alert for it */
-#define C04_OVERRIDE_SAW_THE_ALERT  IMPLIES((C04_ACCEPT) && !(C04_CB_NULL) && !C04_INTERNAL_OK, C04_CB_CALLS == 1 && C04_CB_ALERT > 0 && C04_CB_ALERT != SSL_ALERT_NONE)
+#define C04_SAW_ALERT               (C04_CB_CALLS == 1 && C04_CB_ALERT > 0 && C04_CB_ALERT != SSL_ALERT_NONE)
+#define C04_OVERRIDE_OF_VALIDATOR_FAILURE_SAW_ALERT IMPLIES((C04_ACCEPT) && !(C04_CB_NULL) && !C04_VALIDATOR_OK, C04_SAW_ALERT)
+#define C04_OVERRIDE_OF_BAD_VERDICT_SAW_ALERT       IMPLIES((C04_ACCEPT) && !(C04_CB_NULL) && !(C04_ALL_PASS), C04_SAW_ALERT)
+#define C04_OVERRIDE_OF_NO_TRUST_ANCHORS_SAW_ALERT  IMPLIES((C04_ACCEPT) && !(C04_CB_NULL) && !(C04_HAVE_CA), C04_SAW_ALERT)
 /* going on leaves no pending alert; not going on is fatal with an alert to send */
 #define C04_ACCEPT_LEAVES_NO_ALERT  IMPLIES((C04_ACCEPT), C04_ERR == SSL_ALERT_NONE)
 #define C04_REJECT_IS_FATAL         IMPLIES(!(C04_ACCEPT), RET < 0 && C04_ERR != SSL_ALERT_NONE)
@@ -51,8 +59,10 @@ static int32_t vr_cert_cb(ssl_t *ssl, psX509Cert_t *cert, int32_t alert)
 {
     gh_cb_calls++;
     gh_cb_ssl = ssl; gh_cb_cert = cert; gh_cb_alert = alert;
-    gh_cb_ret = g_in.cb_ret;
-    return g_in.cb_ret;
+    /* documented return values: 0, SSL_ALLOW_ANON_CONNECTION, an alert number, or negative;
+       255 is the library-internal SSL_ALERT_NONE and not an alert an application can ask for */
+    gh_cb_ret = (g_in.cb_ret == SSL_ALERT_NONE) ? SSL_ALERT_BAD_CERTIFICATE : g_in.cb_ret;
+    return gh_cb_ret;
 }
 
 #ifndef C04_REAL_USER_CERT_VALIDATOR
@@ -83,6 +93,11 @@ int32 matrixValidateCertsExt(psPool_t *pool, psX509Cert_t *subjectCerts, psX509C
     for (k = 0; k < 2 && c != NULL; k++)
     {
         int32_t st = g_in.v_status[k];
+        /* the verdicts that exist: PS_FALSE (none), PASS, PS_CERT_AUTH_FAIL_BC (-32) ... PS_CERT_AUTH_FAIL_AUTHKEY (-39) */
+        if (st != PS_FALSE && st != PS_CERT_AUTH_PASS && !(st <= PS_CERT_AUTH_FAIL_BC && st >= PS_CERT_AUTH_FAIL_AUTHKEY))
+        {
+            st = PS_FALSE;
+        }
         if (rc == PS_SUCCESS && st != PS_CERT_AUTH_PASS && st != PS_CERT_AUTH_FAIL_EXTENSION && st != PS_CERT_AUTH_FAIL_AUTHKEY)
         {
             st = PS_CERT_AUTH_PASS;
